@@ -448,6 +448,18 @@ class KEval:
                 self.join_into(env, e1, e2, c)
             return False
         if isinstance(st, ast.Return):
+            # `return bool(C)` / `return C` in a function whose other returns are the constants True / False is `if C: return True` / `return False`
+            e0, wrapped = st.value, False
+            while isinstance(e0, ast.Call) and isinstance(e0.func, ast.Name) and e0.func.id == "bool" and len(e0.args) == 1 and not e0.keywords:
+                e0, wrapped = e0.args[0], True
+            if isinstance(e0, (ast.Compare, ast.BoolOp)) or (isinstance(e0, ast.UnaryOp) and isinstance(e0.op, ast.Not)):
+                others = [r for r in ast.walk(f.node) if isinstance(r, ast.Return) and r is not st]
+                if wrapped or (others and all(isinstance(r.value, ast.Constant) and isinstance(r.value.value, bool) for r in others)):
+                    c = self.cond(e0, env, S, f, guards, loops, depth)
+                    path = tuple(env.get("#path", ()))
+                    S.returns.append((Const(True), guards + path + (c,), st))
+                    S.returns.append((Const(False), guards + path + (c.negate(),), st))
+                    return "exit"
             v = self.ev(st.value, env, S, f, guards, loops, depth) if st.value is not None else Const(None)
             S.returns.append((v, guards + tuple(env.get("#path", ())), st))
             return "exit"
@@ -738,7 +750,7 @@ class KEval:
             return
         if isinstance(t, ast.Subscript):
             base = self.ev(t.value, env, S, f, guards, loops, depth)
-            idx = self.index_of(t.slice, env, S, f, guards, loops, depth)
+            idx = self.index_of(t.slice, env, S, f, guards, loops, depth, base=base)
             if isinstance(base, Ref):
                 val = v if isinstance(v, (tuple, Ref, Const)) else self.scalar(v)
                 if isinstance(val, tuple) and idx and idx[-1] is SLICE and op == "=" and all(isinstance(x, (Poly, Ref, Const)) for x in val):
@@ -812,10 +824,14 @@ class KEval:
             return TOP
         return TOP
 
-    def index_of(self, sl, env, S, f, guards, loops, depth) -> List[Poly]:
+    def index_of(self, sl, env, S, f, guards, loops, depth, base=None) -> List[Poly]:
         els = sl.elts if isinstance(sl, ast.Tuple) else [sl]
         out = []
-        for e in els:
+        # extents of the axes being indexed, when the base is an array of known shape: an open slice end is then that extent (a[k:] is a[k:n])
+        shape = None
+        if isinstance(base, Ref) and base.shape is not None and len(base.shape) >= len(base.idx) + len(els) and not any(x is SLICE or (isinstance(x, Poly) and "slice" in repr(x)) for x in base.idx):
+            shape = base.shape[len(base.idx):]
+        for axis, e in enumerate(els):
             if isinstance(e, ast.Slice):
                 if e.lower is None and e.upper is None and e.step is None:
                     out.append(SLICE)
@@ -823,6 +839,12 @@ class KEval:
                     lo = self.scalar(self.ev(e.lower, env, S, f, guards, loops, depth)) if e.lower is not None else Poly.sym("None")
                     hi = self.scalar(self.ev(e.upper, env, S, f, guards, loops, depth)) if e.upper is not None else Poly.sym("None")
                     stp = self.scalar(self.ev(e.step, env, S, f, guards, loops, depth)) if e.step is not None else Poly.sym("None")
+                    if e.step is None:
+                        # open ends of a unit-step slice in one spelling: a[:k] is a[0:k]
+                        if e.lower is None:
+                            lo = ZERO
+                        if e.upper is None and shape is not None and isinstance(shape[axis], Poly):
+                            hi = shape[axis]
                     if any(isinstance(x, Top) for x in (lo, hi, stp)):
                         out.append(Poly.sym("?slice"))
                     else:
@@ -962,7 +984,7 @@ class KEval:
                 v = base.getitem(self.ev(e.slice, env, S, f, guards, loops, depth), depth)
                 if v is not None:
                     return v
-            idx = self.index_of(e.slice, env, S, f, guards, loops, depth)
+            idx = self.index_of(e.slice, env, S, f, guards, loops, depth, base=base)
             if isinstance(base, Ref):
                 return base.index(idx)
             if isinstance(base, Poly) and len(base.t) == 1 and list(base.t.values())[0] == 1 and len(list(base.t)[0]) == 1 \
